@@ -5,6 +5,6 @@ sys.path.insert(0, os.path.dirname(os.path.dirname(os.path.abspath(__file__))))
 from vlib import runner
 rep = json.load(open(sys.argv[1]))
 run = rep['violation']['run']
-r = runner.run_delta(run['args'], base64.b64decode(run['stdin_b64']), env=run['env'], mode=run['mode'], pty_size=tuple(run['pty_size']))
+r = runner.run_delta(run['args'], base64.b64decode(run['stdin_b64']), env=run['env'], mode=run['mode'], pty_size=tuple(run['pty_size']), **({'parent_argv': run['parent_argv']} if run.get('parent_argv') else {}))
 sys.stdout.buffer.write(r.out); sys.stderr.buffer.write(r.err); print('rc', r.rc)
 runner.cleanup()
